@@ -372,11 +372,16 @@ fn gen_regexp_error(rng: &mut Rng) -> Vec<u8> {
     let nfix = rng.below(4);
     for _ in 0..rng.below(3) { re.push_str(*rng.pick(PLAIN)); }
     for _ in 0..nfix { re.push_str(*rng.pick(FIXABLE)); for _ in 0..rng.below(2) { re.push_str(*rng.pick(PLAIN)); } }
-    if rng.chance(4, 5) { re.push_str(*rng.pick(BROKEN)); }
-    for _ in 0..rng.below(3) { re.push_str(*rng.pick(PLAIN)); }
-    if rng.chance(1, 4) { re.push_str(*rng.pick(FIXABLE)); }
+    // most of the time the genuine error is the last thing of the regexp, so that a location that is off
+    // by a few bytes leaves the literal
+    let error_last = rng.chance(3, 5);
+    if error_last || rng.chance(1, 2) { re.push_str(*rng.pick(BROKEN)); }
+    if !error_last {
+        for _ in 0..rng.below(3) { re.push_str(*rng.pick(PLAIN)); }
+        if rng.chance(1, 4) { re.push_str(*rng.pick(FIXABLE)); }
+    }
     if re.is_empty() || re.starts_with('*') { re.insert(0, 'q'); }
-    let mods = *rng.pick(&["", "i", "s", "is", ""]);
+    let mods = if error_last { "" } else { *rng.pick(&["", "i", "s", "is", ""]) };
     let s = match rng.below(5) {
         0 | 1 => format!("rule r {{ strings: $a = /{}/{} condition: $a }}", re, mods),
         2 => format!("rule r {{ strings: $a = /{}/{} wide $b = /ok{{2}}/ condition: $a or $b }}", re, mods),
@@ -479,8 +484,8 @@ fn run(args: &[String]) -> i32 {
     let mut generated = 0usize;
     while generated < n {
         generated += 1;
-        let c = match rng.below(22) {
-            19 | 20 | 21 => ("regexp_error".to_string(), gen_regexp_error(&mut rng)),
+        let c = match rng.below(25) {
+            19..=24 => ("regexp_error".to_string(), gen_regexp_error(&mut rng)),
             12 | 13 => ("long_token_error".to_string(), gen_long_token_error(&mut rng)),
             14 | 15 => ("int_literal_position".to_string(), gen_int_literal_position(&mut rng)),
             16 | 18 => ("multiline_fix".to_string(), gen_multiline_fix(&mut rng)),
